@@ -11,6 +11,9 @@ import Proofs.UndoForward
 import Proofs.UndoAround
 import Proofs.UndoFit
 import Proofs.MarkupSuccess
+import Proofs.HistoryUndo
+import Proofs.MarkHistory
+import Props.C01
 namespace PM.C04
 open PM
 
@@ -1390,5 +1393,589 @@ theorem nodeMark_undo (S : Schema) (doc doc' : Node) (pos : Nat) (m : Mark) (inv
       exact add_remove_eq S n.marks m hcanP hmm (fun o ho e => hty n hn1 o ho m hmm e)
     · simp only [Except.ok.injEq] at hi; subst hi
       exact remBack m
+
+/-! ## The history clause: "applying the inverted steps in reverse order restores a document equal to
+   the starting one" (work package `wk-histundo`)
+
+`Tr.undo` (Proofs/HistoryUndo.lean) inverts the recorded steps against their recorded documents and
+applies the inverses last to first, starting from the current document — the loop of the
+`history-undo` oracle of harness/props/c04.py. -/
+
+/-- what `replay` records, position by position -/
+theorem replay_get (S : Schema) : ∀ (steps : List Step) (d0 : Node) (docs : List Node) (fin : Node),
+    replay S d0 steps = some (docs, fin) →
+    steps.length = docs.length ∧ (docs[0]?).getD fin = d0 ∧
+    ∀ k (hk : k < steps.length), ∃ d, docs[k]? = some d ∧
+      S.apply steps[k] d = .ok ((docs[k + 1]?).getD fin)
+  | [], d0, docs, fin, h => by
+    simp only [replay, Option.some.injEq, Prod.mk.injEq] at h
+    obtain ⟨rfl, rfl⟩ := h
+    exact ⟨rfl, rfl, fun k hk => by simp at hk⟩
+  | s :: steps, d0, docs, fin, h => by
+    simp only [replay] at h
+    cases ha : S.apply s d0 with
+    | error e => simp [ha] at h
+    | ok d1 =>
+      simp only [ha] at h
+      cases hr : replay S d1 steps with
+      | none => simp [hr] at h
+      | some p =>
+        obtain ⟨ds, fin1⟩ := p
+        simp only [hr, Option.map_some, Option.some.injEq, Prod.mk.injEq] at h
+        obtain ⟨rfl, rfl⟩ := h
+        obtain ⟨h1, h2, h3⟩ := replay_get S steps d1 ds fin1 hr
+        refine ⟨by simp [h1], rfl, fun k hk => ?_⟩
+        cases k with
+        | zero => exact ⟨d0, rfl, by simpa [h2] using ha⟩
+        | succ k =>
+          obtain ⟨d, hd, hk'⟩ := h3 k (by simpa using hk)
+          exact ⟨d, by simpa using hd, by simpa using hk'⟩
+
+/-- **composition, over a replayed history**: if every recorded step — applied to its recorded
+    document, giving the next recorded document — is undone exactly by its inverse (the inverse
+    computed against the recorded document applies to the next one and gives the recorded document
+    back), then applying the inverted steps in reverse order to the final document restores the
+    starting document. -/
+theorem history_undo_of_replay (S : Schema) (d0 : Node) (steps : List Step) (docs : List Node) (fin : Node)
+    (hrep : replay S d0 steps = some (docs, fin))
+    (hall : ∀ k (hk : k < steps.length), ∀ d, docs[k]? = some d →
+      S.apply steps[k] d = .ok ((docs[k + 1]?).getD fin) →
+      StepUndoes S steps[k] d ((docs[k + 1]?).getD fin)) :
+    S.unwind (steps.zip docs) fin = .ok d0 := by
+  obtain ⟨hlen, h0, hk⟩ := replay_get S steps d0 docs fin hrep
+  have hrc := replayChain_zip S steps docs fin hlen hk
+  have := unwind_of_invariant S (fun _ => True)
+    (fun s d d' => S.apply s d = .ok d' → StepUndoes S s d d')
+    (fun s d d' _ ha hg => ⟨hg ha, trivial⟩) (steps.zip docs) fin trivial hrc
+    (histAll_of_get _ _ _ (fun k hk' ha => by
+      have hks : k < steps.length := by simp [List.length_zip] at hk'; omega
+      have hkd : k < docs.length := by omega
+      rw [histNext_zip_drop steps docs fin (k + 1) hlen] at ha ⊢
+      simp only [List.getElem_zip] at ha ⊢
+      exact hall k hks docs[k] (List.getElem?_eq_getElem hkd) ha))
+  rw [this]
+  have := histNext_zip_drop steps docs fin 0 hlen
+  simp only [List.drop_zero] at this
+  rw [this, h0]
+
+/-- **Target: the history clause as a composition theorem** (`history_inv`'s structure: any finite
+    sequence of attempted steps run through `Transform.maybe_step`).  If every *recorded* step `s_k`,
+    applied to the recorded document `docs_k` and giving `docs_{k+1}` (the current document for the
+    last one), satisfies "`invert s_k docs_k = ok inv_k` and `apply inv_k docs_{k+1} = ok docs_k`",
+    then the inverted steps applied in reverse order to the final document restore the starting
+    document.  The single-step theorems of this file (`replace_undo`, `replaceAround_undo`,
+    `attr_undo`, `nodeMark_undo`, and `removeMarkStep_undo` / `addMarkStep_undo` below) discharge
+    the hypothesis step by step. -/
+theorem history_undo_of_steps (S : Schema) (doc : Node) (sts : List Step) :
+    let tr := (Tr.init doc).run S sts
+    (∀ k (hk : k < tr.steps.length), ∀ d, tr.docs[k]? = some d →
+      S.apply tr.steps[k] d = .ok (tr.docAfter k) → StepUndoes S tr.steps[k] d (tr.docAfter k)) →
+    tr.undo S = .ok doc := by
+  intro tr hall
+  obtain ⟨_, _, _, _, hrep⟩ := history_inv S doc sts
+  exact history_undo_of_replay S doc tr.steps tr.docs tr.doc hrep hall
+
+/-! ### Range mark steps: `AddMarkStep` / `RemoveMarkStep` (work package `wk-histundo`)
+
+`RemoveMarkStep.invert` is `AddMarkStep` with the same range and mark and vice versa, whatever the
+document.  That naive inverse does not undo every step (a `RemoveMarkStep` over a node that never
+carried the mark is undone by *adding* the mark; an `AddMarkStep` that displaces a mark loses it …).
+The exact condition, token by token, are the guards `removeMarkUndoable` / `addMarkUndoable` of
+PM/MarkUndoGuard.lean (tied to the real code: guard = "the real inverse restores", request
+`markUndoGuards`):
+
+* remove, then add: an inline *atom* starting in `[f, t)` whose parent allows the mark type must
+  satisfy `m.addToSet (m.removeFromSet marks) = marks` — it carried `m`, `m` sits where `add_to_set`
+  puts it, and nothing kept excludes or is excluded by `m`; any other inline node starting in the range
+  (an inline node with content, or one whose parent does not allow the mark type) must not carry `m`,
+  because the add step will not give it back;
+* add, then remove: an inline atom whose parent allows the type must satisfy
+  `m.removeFromSet (m.addToSet marks) = marks` — it did not carry `m` and `m` displaced nothing (a mark
+  that *blocks* `m` is harmless: then neither step does anything); any other inline node must not
+  carry `m`, because the remove step strips it.
+
+`Transform.add_mark` / `remove_mark` emit only steps that satisfy their guard
+(`planRemoveMark_steps_exact`, `planAddMark_steps_exact`), with two exceptions that are carried as
+explicit guards: an inline node *with content* in the range (`flatInline`; no bundled schema has
+one), and — finding `C04-same-type-mark-order` — an inline node carrying two marks of the removed
+mark's type (`sameTypeFree`, `markStep_undo_needs_guard`). -/
+
+/-- **exact undo of a `RemoveMarkStep`**: valid normal-form document, `TextLoop` schema, the step
+    applies, guard `removeMarkUndoable`; `ha`: the two ends do not split a surrogate pair of `doc'`.
+    Then the inverse (`AddMarkStep(f, t, m)`) applies to `doc'` and gives back `doc`. -/
+theorem removeMarkStep_undo (S : Schema) (hts : TextLoop S) (doc doc' : Node) (f t : Nat) (m : Mark)
+    (hd : S.checkNode doc = true) (hn : fnorm doc.kids = true)
+    (h1 : S.apply (.removeMark f t m) doc = .ok doc')
+    (hg : removeMarkUndoable S doc f t m = true)
+    (ha : alignedAt doc'.kids f = true ∧ alignedAt doc'.kids t = true) :
+    S.invert (.removeMark f t m) doc = .ok (.addMark f t m) ∧ S.apply (.addMark f t m) doc' = .ok doc := by
+  obtain ⟨inv, hi, h2⟩ := removeMark_stepUndoes S hts doc doc' f t m hd hn h1 hg ha
+  simp only [Schema.invert, Except.ok.injEq] at hi
+  subst hi
+  exact ⟨rfl, h2⟩
+
+/-- the guard is exact: whenever the inverse applies, it restores the document iff the guard holds -/
+theorem removeMarkStep_undo_iff (S : Schema) (doc doc' doc'' : Node) (f t : Nat) (m : Mark)
+    (hn : fnorm doc.kids = true)
+    (h1 : S.apply (.removeMark f t m) doc = .ok doc') (h2 : S.apply (.addMark f t m) doc' = .ok doc'') :
+    doc'' = doc ↔ removeMarkUndoable S doc f t m = true :=
+  removeMark_restore_iff S doc doc' doc'' f t m hn h1 h2
+
+/-- **exact undo of an `AddMarkStep`** -/
+theorem addMarkStep_undo (S : Schema) (hts : TextLoop S) (doc doc' : Node) (f t : Nat) (m : Mark)
+    (hd : S.checkNode doc = true) (hn : fnorm doc.kids = true)
+    (h1 : S.apply (.addMark f t m) doc = .ok doc')
+    (hg : addMarkUndoable S doc f t m = true)
+    (ha : alignedAt doc'.kids f = true ∧ alignedAt doc'.kids t = true) :
+    S.invert (.addMark f t m) doc = .ok (.removeMark f t m) ∧ S.apply (.removeMark f t m) doc' = .ok doc := by
+  obtain ⟨inv, hi, h2⟩ := addMark_stepUndoes S hts doc doc' f t m hd hn h1 hg ha
+  simp only [Schema.invert, Except.ok.injEq] at hi
+  subst hi
+  exact ⟨rfl, h2⟩
+
+theorem addMarkStep_undo_iff (S : Schema) (doc doc' doc'' : Node) (f t : Nat) (m : Mark)
+    (hn : fnorm doc.kids = true)
+    (h1 : S.apply (.addMark f t m) doc = .ok doc') (h2 : S.apply (.removeMark f t m) doc' = .ok doc'') :
+    doc'' = doc ↔ addMarkUndoable S doc f t m = true :=
+  addMark_restore_iff S doc doc' doc'' f t m hn h1 h2
+
+/-- the guard of `removeMarkStep_undo` in plain words (sufficient): in a valid document, every inline
+    node starting in `[f, t)` is an atom, carries `m`, and carries no other mark of `m`'s type -/
+theorem removeMarkUndoable_of_carried (S : Schema) (doc : Node) (f t : Nat) (m : Mark)
+    (hv : S.checkNode doc = true)
+    (h : ∀ i, i < (ftoks doc.kids).length → f ≤ i → i < t → isInlineTok S (tokD doc i) = true →
+      isAtomTok S (tokD doc i) = true ∧ m ∈ (tokD doc i).marks ∧
+        ∀ o ∈ (tokD doc i).marks, o.ty = m.ty → o = m) :
+    removeMarkUndoable S doc f t m = true := by
+  rw [removeMarkUndoable_iff]
+  intro i hi h1 h2
+  unfold removeUndoTok
+  rw [tokInline_eq, tokAtom_eq, tokMarks_eq]
+  by_cases hin : isInlineTok S (tokD doc i) = true
+  · obtain ⟨hat, hm, hty⟩ := h i hi h1 h2 hin
+    obtain ⟨hc, hal⟩ := valid_tok S doc hv i hi
+    simp [hin, hat, hal m hm, add_remove_eq S _ m hc hm hty]
+  · simp [hin]
+
+/-- the guard of `addMarkStep_undo` in plain words (sufficient): no inline node starting in `[f, t)`
+    carries `m`, and `m` excludes none of the marks of the atoms it is added to -/
+theorem addMarkUndoable_of_fresh (S : Schema) (doc : Node) (f t : Nat) (m : Mark)
+    (h : ∀ i, i < (ftoks doc.kids).length → f ≤ i → i < t → isInlineTok S (tokD doc i) = true →
+      m ∉ (tokD doc i).marks ∧ ∀ o ∈ (tokD doc i).marks, S.excludes m.ty o.ty = false) :
+    addMarkUndoable S doc f t m = true := by
+  rw [addMarkUndoable_iff]
+  intro i hi h1 h2
+  unfold addUndoTok
+  rw [tokInline_eq, tokAtom_eq, tokMarks_eq]
+  by_cases hin : isInlineTok S (tokD doc i) = true
+  · obtain ⟨hm, hex⟩ := h i hi h1 h2 hin
+    have key : m.removeFromSet (m.addToSet S (tokD doc i).marks) = (tokD doc i).marks := by
+      rw [addToSet_eq]
+      split
+      · exact (removeFromSet_eq_self_iff m _).mpr hm
+      · have hf : (tokD doc i).marks.filter (fun o => !S.excludes m.ty o.ty) = (tokD doc i).marks :=
+          List.filter_eq_self.mpr (fun o ho => by simp [hex o ho])
+        rw [hf]
+        exact filter_ne_insertByRank m _ hm
+    have hm' : m.isInSet (tokD doc i).marks = false := by
+      rw [← Bool.not_eq_true, PM.isInSet_iff]; exact hm
+    simp [hin, key, hm']
+  · simp [hin]
+
+/-- **`Transform.remove_mark` emits only steps whose naive inverse is exact.**  If the operation goes
+    through on a valid document without inline nodes that have content, the history grows by the planned
+    steps paired with the documents they were applied to, and every such pair `(RemoveMarkStep(a, b, x), d)`
+    satisfies: `f ≤ a`, `b ≤ t`, and — unless some inline node starting in `[a, b)` carries two marks of
+    `x`'s type (`sameTypeFree`) — the guard `removeMarkUndoable S d a b x` of `removeMarkStep_undo`. -/
+theorem planRemoveMark_steps_exact (S : Schema) (tr tr' : Tr) (f t : Nat) (sel : MarkSel)
+    (hlen : tr.steps.length = tr.docs.length) (hv : S.checkNode tr.doc = true)
+    (hflat : flatInline S tr.doc = true) (h : tr.removeMark S f t sel = .ok tr') :
+    tr'.hist = tr.hist ++ S.stepsHist (planRemoveMarkSteps S tr.doc f t sel) tr.doc ∧
+    HistAll (fun s d _ => ∃ a b x, s = .removeMark a b x ∧ f ≤ a ∧ b ≤ t ∧
+        (sameTypeFree S d a b x.ty = true → removeMarkUndoable S d a b x = true))
+      (S.stepsHist (planRemoveMarkSteps S tr.doc f t sel) tr.doc) tr'.doc := by
+  simp only [Tr.removeMark, planRemoveMark] at h
+  split at h
+  · rename_i sts hsts
+    split at hsts
+    · simp at hsts
+    · simp only [Except.ok.injEq] at hsts
+      subst hsts
+      obtain ⟨h1, _, h3⟩ := Tr.stepAll_hist S _ tr tr' hlen h
+      refine ⟨h1, histAll_stepsHist S _ _ [] tr.doc tr.doc tr'.doc rfl h3 (fun k hk d d' hd _ => ?_)⟩
+      simp only [List.nil_append] at hd
+      exact planRemoveMark_steps_guard S tr.doc f t sel hv hflat k hk d hd
+  · simp at h
+
+/-- **`Transform.add_mark` emits only steps whose naive inverse is exact**: the recorded steps are
+    first `RemoveMarkStep(a, b, x)` for displaced marks `x` — each satisfying `removeMarkUndoable` for
+    the document it is applied to, under the same-type guard — then `AddMarkStep(a, b, m)`, each
+    satisfying `addMarkUndoable` (after the removals the mark displaces nothing, and it is added only
+    over nodes that did not carry it). -/
+theorem planAddMark_steps_exact (S : Schema) (tr tr' : Tr) (f t : Nat) (m : Mark)
+    (hlen : tr.steps.length = tr.docs.length) (hv : S.checkNode tr.doc = true)
+    (hflat : flatInline S tr.doc = true) (h : tr.addMark S f t m = .ok tr') :
+    tr'.hist = tr.hist ++ S.stepsHist (planAddMarkSteps S tr.doc f t m) tr.doc ∧
+    HistAll (fun s d _ =>
+        (∃ a b x, s = .removeMark a b x ∧ f ≤ a ∧ b ≤ t ∧
+          (sameTypeFree S d a b x.ty = true → removeMarkUndoable S d a b x = true)) ∨
+        (∃ a b, s = .addMark a b m ∧ f ≤ a ∧ b ≤ t ∧ addMarkUndoable S d a b m = true))
+      (S.stepsHist (planAddMarkSteps S tr.doc f t m) tr.doc) tr'.doc := by
+  simp only [Tr.addMark, planAddMark] at h
+  split at h
+  · rename_i sts hsts
+    split at hsts
+    · simp at hsts
+    · simp only [Except.ok.injEq] at hsts
+      subst hsts
+      obtain ⟨h1, _, h3⟩ := Tr.stepAll_hist S _ tr tr' hlen h
+      refine ⟨h1, histAll_stepsHist S _ _ [] tr.doc tr.doc tr'.doc rfl h3 (fun k hk d d' hd _ => ?_)⟩
+      simp only [List.nil_append] at hd
+      exact planAddMark_steps_guard S tr.doc f t m hv hflat k hk d hd
+  · simp at h
+
+/-- **a history of `add_mark` / `remove_mark` operations is undone exactly by its inverted steps in
+    reverse order.**  `S` with `TextLoop`; `doc` valid, in normal form, without inline nodes that have
+    content; `ops` any list of `add_mark(f, t, mark)` / `remove_mark(f, t, mark | type | None)` calls
+    that all went through (`Tr.markOps`).  Two families of hypotheses over the recorded history
+    (`tr'.hist` = recorded steps paired with their recorded documents):
+    `hty` — the guard of finding C04-same-type-mark-order: for every recorded `RemoveMarkStep(a, b, x)`
+    no inline node starting in `[a, b)` of its recorded document carries two marks of `x`'s type
+    (automatic when the mark types exclude themselves: `sameTypeFree_of_selfExcluding`);
+    `hal` — the pair-alignment proviso of every step's inverse (automatic for text without surrogate
+    pairs: `markHistory_undo_bmp`). -/
+theorem markHistory_undo (S : Schema) (hts : TextLoop S) (doc : Node) (ops : List MarkOp) (tr' : Tr)
+    (hd : S.checkNode doc = true) (hn : fnorm doc.kids = true) (hflat : flatInline S doc = true)
+    (h : (Tr.init doc).markOps S ops = .ok tr')
+    (hty : HistAll (fun s d _ => s.sameTypeGuard S d) tr'.hist tr'.doc)
+    (hal : HistAll (fun s _ d' => s.undoAligned d') tr'.hist tr'.doc) :
+    tr'.undo S = .ok doc :=
+  markOps_undo S hts doc ops tr' ⟨hd, hn, hflat⟩ h hty hal
+
+theorem markHistory_undo_bmp (S : Schema) (hts : TextLoop S) (doc : Node) (ops : List MarkOp) (tr' : Tr)
+    (hd : S.checkNode doc = true) (hn : fnorm doc.kids = true) (hflat : flatInline S doc = true)
+    (hb : bmpDoc doc = true)
+    (h : (Tr.init doc).markOps S ops = .ok tr')
+    (hty : HistAll (fun s d _ => s.sameTypeGuard S d) tr'.hist tr'.doc) :
+    tr'.undo S = .ok doc :=
+  markOps_undo_bmp S hts doc ops tr' ⟨hd, hn, hflat⟩ hb h hty
+
+/-- the same-type guard is automatic where the mark types exclude themselves (ProseMirror's default
+    for a mark spec without `excludes`; of the bundled family only `marks-x` has a type that does not:
+    `comment`): a valid document then has no node with two marks of one declared type -/
+theorem sameTypeGuard_of_selfExcluding (S : Schema) (hse : selfExcluding S = true) (d : Node)
+    (hv : S.checkNode d = true) (a b : Nat) (x : Mark) (hx : x.ty < S.marks.size) :
+    (Step.removeMark a b x).sameTypeGuard S d :=
+  sameTypeFree_of_selfExcluding S hse d hv a b x.ty hx
+
+/-! The same-type guard cannot be dropped (finding `C04-same-type-mark-order`).  Schema `doc: para*`,
+    `para: text*` (all marks), one mark type `comment` that does not exclude itself; the text of
+    `doc(p("ab"))` carries `[comment{id:1}, comment{id:2}]` (a valid, canonical set).
+    `RemoveMarkStep(1, 3, comment{id:1})` applies; its inverse `AddMarkStep(1, 3, comment{id:1})` applies
+    too, but `add_to_set` puts the mark *behind* the other mark of its type: the result carries
+    `[comment{id:2}, comment{id:1}]`, which is not the document we started from (`Mark.same_set` is
+    order-sensitive).  Every other hypothesis of `removeMarkStep_undo` / `markHistory_undo` holds. -/
+section NeedsSameType
+private def cxS : Schema :=
+  { nodes := #[
+      { name := "doc", isText := false, isInline := false, isLeaf := false, isAtom := false,
+        inlineContent := false, isolating := false, defining := false, code := false,
+        dfa := #[⟨true, [(1, 0)]⟩], markSet := some [], attrs := [] },
+      { name := "para", isText := false, isInline := false, isLeaf := false, isAtom := false,
+        inlineContent := true, isolating := false, defining := false, code := false,
+        dfa := #[⟨true, [(2, 0)]⟩], markSet := none, attrs := [] },
+      { name := "text", isText := true, isInline := true, isLeaf := true, isAtom := true,
+        inlineContent := false, isolating := false, defining := false, code := false,
+        dfa := #[⟨true, []⟩], markSet := some [], attrs := [] }],
+    marks := #[{ name := "comment", excluded := [], inclusive := true, attrs := [] }], top := 0, textTy := 2 }
+
+private def cxM1 : Mark := ⟨0, [("id", "1")]⟩
+private def cxM2 : Mark := ⟨0, [("id", "2")]⟩
+private def cxKids : List Node := [.elem 1 [] [] [.text [97, 98] [cxM1, cxM2]]]
+
+private theorem cx_loop : TextLoop cxS := by
+  intro t q q1 h
+  match t, q with
+  | 0, 0 => simp [Schema.dfa, Schema.nodeType, cxS, Dfa.matchType, Dfa.edgesOf] at h
+  | 1, 0 =>
+    have : q1 = 0 := by
+      simp [Schema.dfa, Schema.nodeType, cxS, Dfa.matchType, Dfa.edgesOf] at h; omega
+    subst this; exact h
+  | 2, 0 => simp [Schema.dfa, Schema.nodeType, cxS, Dfa.matchType, Dfa.edgesOf] at h
+  | 0, q + 1 => simp [Schema.dfa, Schema.nodeType, cxS, Dfa.matchType, Dfa.edgesOf] at h
+  | 1, q + 1 => simp [Schema.dfa, Schema.nodeType, cxS, Dfa.matchType, Dfa.edgesOf] at h
+  | 2, q + 1 => simp [Schema.dfa, Schema.nodeType, cxS, Dfa.matchType, Dfa.edgesOf] at h
+  | t + 3, q =>
+    have : (cxS.dfa (t + 3)) = #[] := by
+      simp [Schema.dfa, Schema.nodeType, cxS]
+      rfl
+    rw [this] at h
+    simp [Dfa.matchType, Dfa.edgesOf] at h
+
+/-- **the same-type guard is needed**: a valid, normal-form, flat document under a `TextLoop` schema
+    and a `RemoveMarkStep` that applies, whose inverse applies as well (pair-alignment holds) — but
+    `sameTypeFree` fails, `removeMarkUndoable` fails, and the inverse does not give the document back -/
+theorem markStep_undo_needs_guard :
+    ∃ (S : Schema) (doc doc' : Node) (f t : Nat) (m : Mark),
+      TextLoop S ∧ S.checkNode doc = true ∧ fnorm doc.kids = true ∧ flatInline S doc = true ∧
+      S.apply (.removeMark f t m) doc = .ok doc' ∧
+      (alignedAt doc'.kids f = true ∧ alignedAt doc'.kids t = true) ∧
+      sameTypeFree S doc f t m.ty = false ∧ removeMarkUndoable S doc f t m = false ∧
+      ∃ doc'', S.apply (.addMark f t m) doc' = .ok doc'' ∧ doc'' ≠ doc := by
+  have hv : cxS.checkNode (.elem 0 [] [] cxKids) = true := by decide
+  have hn : fnorm cxKids = true := by
+    simp [cxKids, fnorm, fnormKids, Node.norm, chainOk]
+  have hb : bmpDoc (.elem 0 [] [] cxKids) = true := by decide
+  obtain ⟨doc', h1⟩ := PM.removeMark_applies cxS cx_loop 0 [] [] cxKids 1 3 cxM1 hv hn (by omega)
+    (by simp [cxKids]) (alignedAt_of_bmp _ _ hb) (alignedAt_of_bmp _ _ hb)
+  have hal := (bmp_step cxS _ _ doc' (.inl ⟨1, 3, cxM1, rfl⟩) hb h1).2
+  have hg : removeMarkUndoable cxS (.elem 0 [] [] cxKids) 1 3 cxM1 = false := by decide
+  obtain ⟨doc'', h2⟩ := removeMark_inverse_applies cxS cx_loop _ doc' 1 3 cxM1 hv hn h1 hal
+  refine ⟨cxS, _, doc', 1, 3, cxM1, cx_loop, hv, hn, by decide, h1, hal, by decide, hg, doc'', h2, ?_⟩
+  intro e
+  have := (removeMark_restore_iff cxS (.elem 0 [] [] cxKids) doc' doc'' 1 3 cxM1 hn h1 h2).mp e
+  rw [hg] at this
+  cases this
+/-- the hypotheses of `removeMarkStep_undo` are satisfiable together: with a single `comment` mark on
+    the text, `RemoveMarkStep(1, 3, comment{id:1})` applies and its inverse restores the document -/
+example : ∃ doc', cxS.apply (.removeMark 1 3 cxM1) (.elem 0 [] [] [.elem 1 [] [] [.text [97, 98] [cxM1]]]) = .ok doc' ∧
+    cxS.apply (.addMark 1 3 cxM1) doc' = .ok (.elem 0 [] [] [.elem 1 [] [] [.text [97, 98] [cxM1]]]) := by
+  have hv : cxS.checkNode (.elem 0 [] [] [.elem 1 [] [] [.text [97, 98] [cxM1]]]) = true := by decide
+  have hn : fnorm [Node.elem 1 [] [] [.text [97, 98] [cxM1]]] = true := by
+    simp [fnorm, fnormKids, Node.norm, chainOk]
+  have hb : bmpDoc (.elem 0 [] [] [.elem 1 [] [] [.text [97, 98] [cxM1]]]) = true := by decide
+  obtain ⟨doc', h1⟩ := PM.removeMark_applies cxS cx_loop 0 [] [] _ 1 3 cxM1 hv hn (by omega)
+    (by simp) (alignedAt_of_bmp _ _ hb) (alignedAt_of_bmp _ _ hb)
+  have hal := (bmp_step cxS _ _ doc' (.inl ⟨1, 3, cxM1, rfl⟩) hb h1).2
+  exact ⟨doc', h1, (removeMarkStep_undo cxS cx_loop _ doc' 1 3 cxM1 hv hn h1 (by decide) hal).2⟩
+end NeedsSameType
+
+/-- the hypotheses of `markHistory_undo` on a small instance: the guards are computable -/
+example : flatInline cxS (.elem 0 [] [] cxKids) = true ∧ bmpDoc (.elem 0 [] [] cxKids) = true ∧
+    selfExcluding cxS = false ∧ sameTypeFree cxS (.elem 0 [] [] cxKids) 1 3 0 = false := by decide
+
+/-! ### The bundled family: a history over all eight step kinds (work package `wk-histundo`)
+
+`family_history_undo` composes the single-step undo theorems of this file along any replayed history,
+carrying "valid and in normal form" from document to document (`C01.apply_valid`, `apply_norm`).
+What each recorded step has to satisfy besides that is `FamilyGuard` — per step kind, exactly the
+hypotheses of its single-step theorem that the invariant does not supply.  The schema hypotheses
+`compatTransB S` and `TextLoop S` hold of all nine bundled-family schemas (measured per run:
+`coverage.schema_guards` of the evidence). -/
+
+/-- exact undo of a doc-attribute step with the restored document pinned: the document itself
+    (strengthens `docAttr_undo`, whose conclusion leaves the attributes open) -/
+theorem docAttr_undo_exact (S : Schema) (t : TypeId) (a : Attrs) (m : Marks) (kids : List Node)
+    (name value : String) (doc' : Node) (inv : Step)
+    (ha : computeAttrs (S.nodeType t).attrs a = .ok a) (hm : setFrom m = m)
+    (h1 : S.apply (.docAttr name value) (.elem t a m kids) = .ok doc')
+    (hi : S.invert (.docAttr name value) (.elem t a m kids) = .ok inv) :
+    S.apply inv doc' = .ok (.elem t a m kids) := by
+  simp only [Schema.apply] at h1
+  cases hc1 : computeAttrs (S.nodeType t).attrs (a.filter (·.1 != name) ++ [(name, value)]) with
+  | error e => simp [hc1, Except.map] at h1
+  | ok a1 =>
+    simp only [hc1, Except.map, Except.ok.injEq] at h1
+    subst h1
+    simp only [Schema.invert, Node.attrs] at hi
+    cases hf : a.find? (·.1 == name) with
+    | none => simp [hf] at hi
+    | some q =>
+      obtain ⟨nm, v⟩ := q
+      simp only [hf, Except.ok.injEq] at hi
+      subst hi
+      have hlk : lk a name = some v := by simp [lk, hf]
+      have := computeAttrs_undo _ a a1 name value v ha hlk hc1
+      simp only [Schema.apply, this, Except.map, hm]
+
+/-- valid and in normal form -/
+def FamilyInv (S : Schema) (d : Node) : Prop := S.checkNode d = true ∧ fnorm d.kids = true
+
+/-- **what a recorded step has to satisfy, by kind** (`d` the document it was applied to, `d'` its result).
+    Common to several kinds: `∃ inv, S.invert s d = .ok inv` — `Step.invert` does not raise (oracle
+    `invert-raises`); `s.undoAligned d'` — the pair-alignment proviso of the inverse.
+    * replace: the slice is in normal form and a valid payload (`C01.PayloadValid`);
+    * replace-around: slice in normal form and well formed, `insert ≤ slice.size`, ordered gap, valid
+      payload; **`hst`** — when the structure flag is set, the two `content_between` checks of the inverse
+      on `d'` find no content (the inverse inherits the flag; finding C04-structure-inverse; for a slice
+      with only wrapper tokens beside the insertion point it holds: `replaceAround_hst_of_wrappers`,
+      Proofs/UndoStructure.lean); **`gapClean`** — the gap lies between complete children (what `lift`,
+      `wrap`, `set_node_markup` emit; otherwise finding C04-around-text-gap);
+    * add-mark / remove-mark: the exact guard of the naive inverse (`addMarkUndoable` /
+      `removeMarkUndoable`; the planners' steps satisfy it: `planGuard_family`);
+    * attr / doc-attr: every node carries its attributes as `compute_attrs` builds them (`attrsOk`);
+    * node marks: `attrsOk` and the three guards of `nodeMark_undo` (finding C04-node-mark-inverse). -/
+def FamilyGuard (S : Schema) (s : Step) (d d' : Node) : Prop :=
+  match s with
+  | .replace _ _ sl _ =>
+    fnorm sl.content = true ∧ C01.PayloadValid S d s ∧ (∃ inv, S.invert s d = .ok inv) ∧ s.undoAligned d'
+  | .replaceAround f t gf gt sl ins b =>
+    fnorm sl.content = true ∧ sl.wf = true ∧ (ins : Int) ≤ sl.size ∧ (f ≤ gf ∧ gf ≤ gt ∧ gt ≤ t) ∧
+    C01.PayloadValid S d s ∧ (∃ inv, S.invert s d = .ok inv) ∧
+    (b = true → contentBetween d' f (f + ins) = some false ∧
+      contentBetween d' (f + ins + (gt - gf)) (f + sl.size.toNat + (gt - gf)) = some false) ∧
+    (∀ old, d.slice f t = .ok old →
+      gapClean old.content none (gf - f + old.openStart) (gt - f + old.openStart) = true) ∧
+    s.undoAligned d'
+  | .addMark f t m => addMarkUndoable S d f t m = true ∧ s.undoAligned d'
+  | .removeMark f t m => removeMarkUndoable S d f t m = true ∧ s.undoAligned d'
+  | .attr _ _ _ => attrsOk S d = true ∧ (∃ inv, S.invert s d = .ok inv)
+  | .docAttr _ _ => attrsOk S d = true ∧ (∃ inv, S.invert s d = .ok inv)
+  | .addNodeMark pos m =>
+    attrsOk S d = true ∧ (∃ inv, S.invert s d = .ok inv) ∧
+    (∀ n, d.nodeAt pos = .ok (some n) → n.marks.length ≤ (m.addToSet S n.marks).length) ∧
+    (∀ n, d.nodeAt pos = .ok (some n) → ∀ x ∈ n.marks, ∀ y ∈ n.marks, x.ty = y.ty → x = y) ∧
+    (∀ n, d.nodeAt pos = .ok (some n) → ∀ x ∈ n.marks, S.excludes m.ty x.ty = true → S.excludes x.ty m.ty = true)
+  | .removeNodeMark pos _ =>
+    attrsOk S d = true ∧ (∃ inv, S.invert s d = .ok inv) ∧
+    (∀ n, d.nodeAt pos = .ok (some n) → ∀ x ∈ n.marks, ∀ y ∈ n.marks, x.ty = y.ty → x = y)
+
+/-- a step recorded by `add_mark` / `remove_mark` satisfies its `FamilyGuard`, given the same-type
+    guard and the pair-alignment proviso -/
+theorem planGuard_family (S : Schema) (s : Step) (d d' : Node) (hp : PlanGuard S s d d')
+    (hty : s.sameTypeGuard S d) (hal : s.undoAligned d') : FamilyGuard S s d d' := by
+  rcases hp with ⟨a, b, x, rfl, hg⟩ | ⟨a, b, m, rfl, hg⟩
+  · exact ⟨hg hty, hal⟩
+  · exact ⟨hg, hal⟩
+
+/-- node-markup steps keep the normal form -/
+private theorem nodeStep_norm (S : Schema) (d d' n u : Node) (pos : Nat) (attrs : Attrs) (marks : Marks)
+    (hn : fnorm d.kids = true) (hu : S.recreate n attrs marks = .ok u)
+    (hr : S.fromReplace d pos (pos + 1) ⟨[u], 0, if n.isLeaf then 0 else 1⟩ = .ok d') :
+    fnorm d'.kids = true :=
+  fromReplace_norm S d d' pos (pos + 1) _ hn (recreate_spec S n u attrs marks hu).2.1 hr
+
+/-- **one recorded step of any kind is undone exactly under its guard, and the invariant is kept** -/
+theorem family_step (S : Schema) (htr : compatTransB S = true) (hts : TextLoop S) (s : Step) (d d' : Node)
+    (hI : FamilyInv S d) (h : S.apply s d = .ok d') (hg : FamilyGuard S s d d') :
+    StepUndoes S s d d' ∧ FamilyInv S d' := by
+  obtain ⟨hv, hn⟩ := hI
+  cases s with
+  | replace f t sl b =>
+    obtain ⟨hsn, hp, ⟨inv, hi⟩, ha⟩ := hg
+    exact ⟨⟨inv, hi, replace_undo_transitive S d d' f t sl b inv htr hv hn hsn h hi ha⟩,
+      C01.apply_valid S (.replace f t sl b) d d' hv hp h, apply_norm S (.replace f t sl b) d d' hsn hn h⟩
+  | replaceAround f t gf gt sl ins b =>
+    obtain ⟨hsn, hwf, hins, hgo, hp, ⟨inv, hi⟩, hst, hclean, ha1, ha2, ha3, ha4⟩ := hg
+    have hj : sidesCompatibleAround S d f t gf gt sl ins = true := by
+      obtain ⟨gap, inserted, hgap, _, _, hinst, hfr1⟩ := apply_replaceAround_parts S d d' f t gf gt sl ins b h
+      obtain ⟨ty, a, m, K, K', rfl, rfl, hr1⟩ := fromReplace_elem S d d' f t inserted hfr1
+      have := sidesCompatible_of_trans S (compatTrans_of_B S htr) ty a m K K' f t inserted hn hr1
+      simpa [sidesCompatibleAround, hgap, hinst] using this
+    exact ⟨⟨inv, hi, replaceAround_undo_structural S d d' f t gf gt sl ins b inv hv hn hsn hwf hins hgo h hi
+        hst hclean hj ⟨ha1, ha3, ha4, ha2⟩⟩,
+      C01.apply_valid S (.replaceAround f t gf gt sl ins b) d d' hv hp h,
+      apply_norm S (.replaceAround f t gf gt sl ins b) d d' hsn hn h⟩
+  | addMark f t m =>
+    have k := addMark_keepsAll S d d' f t m h
+    exact ⟨addMark_stepUndoes S hts d d' f t m hv hn h hg.1 hg.2, k.valid hts.stable hv, k.norm hn⟩
+  | removeMark f t m =>
+    have k := removeMark_keepsAll S d d' f t m h
+    exact ⟨removeMark_stepUndoes S hts d d' f t m hv hn h hg.1 hg.2, k.valid hts.stable hv, k.norm hn⟩
+  | attr pos name value =>
+    obtain ⟨ha, inv, hi⟩ := hg
+    obtain ⟨n, u, _, hu, hr⟩ := apply_attr_parts S d d' pos name value h
+    exact ⟨⟨inv, hi, attr_undo S d d' pos name value inv hn hv ha h hi⟩,
+      C01.apply_valid S (.attr pos name value) d d' hv trivial h, nodeStep_norm S d d' n u pos _ _ hn hu hr⟩
+  | docAttr name value =>
+    obtain ⟨ha, inv, hi⟩ := hg
+    cases d with
+    | text _ _ => simp [Schema.apply] at h
+    | leaf _ _ _ => simp [Schema.apply] at h
+    | elem t a m kids =>
+      have hca : computeAttrs (S.nodeType t).attrs a = .ok a := by
+        have := attrsOk_compute (n := .elem t a m kids) ha rfl
+        simpa [Node.headTok, Tok.ty, Node.attrs] using this
+      have hv' := hv
+      simp only [checkNode_elem, Bool.and_eq_true] at hv'
+      have hm : setFrom m = m := setFrom_of_sorted m ((canonicalMarks_iff_canonP S m).1 hv'.1.2).sorted
+      refine ⟨⟨inv, hi, docAttr_undo_exact S t a m kids name value d' inv hca hm h hi⟩,
+        C01.apply_valid S (.docAttr name value) _ d' hv trivial h, ?_⟩
+      simp only [Schema.apply] at h
+      cases hc1 : computeAttrs (S.nodeType t).attrs (a.filter (·.1 != name) ++ [(name, value)]) with
+      | error e => simp [hc1, Except.map] at h
+      | ok a1 =>
+        simp only [hc1, Except.map, Except.ok.injEq] at h
+        subst h
+        exact hn
+  | addNodeMark pos m =>
+    obtain ⟨ha, ⟨inv, hi⟩, hdis, hty, hsym⟩ := hg
+    obtain ⟨n, u, _, hu, hr⟩ := apply_addNodeMark_parts S d d' pos m h
+    exact ⟨⟨inv, hi, nodeMark_undo S d d' pos m inv true hn hv ha h hi (fun n hn _ => hdis n hn) hty
+        (fun n hn _ => hsym n hn)⟩,
+      C01.apply_valid S (.addNodeMark pos m) d d' hv trivial h, nodeStep_norm S d d' n u pos _ _ hn hu hr⟩
+  | removeNodeMark pos m =>
+    obtain ⟨ha, ⟨inv, hi⟩, hty⟩ := hg
+    obtain ⟨n, u, _, hu, hr⟩ := apply_removeNodeMark_parts S d d' pos m h
+    exact ⟨⟨inv, hi, nodeMark_undo S d d' pos m inv false hn hv ha h hi (fun _ _ hc => by cases hc) hty
+        (fun _ _ hc => by cases hc)⟩,
+      C01.apply_valid S (.removeNodeMark pos m) d d' hv trivial h, nodeStep_norm S d d' n u pos _ _ hn hu hr⟩
+
+/-- **the history clause for the bundled family**: schema with transitive `compatible_content`
+    (`compatTransB`) and `TextLoop`; `doc` valid and in normal form; any replayed history
+    (`replay S doc steps = some (docs, fin)` — every history built through the transform API is one,
+    `history_inv`) whose recorded steps satisfy `FamilyGuard`.  Then the inverted steps applied in
+    reverse order to the final document restore `doc`, and the final document is again valid and in
+    normal form. -/
+theorem family_history_undo (S : Schema) (htr : compatTransB S = true) (hts : TextLoop S)
+    (doc : Node) (steps : List Step) (docs : List Node) (fin : Node)
+    (hd : S.checkNode doc = true) (hn : fnorm doc.kids = true)
+    (hrep : replay S doc steps = some (docs, fin))
+    (hg : HistAll (FamilyGuard S) (steps.zip docs) fin) :
+    S.unwind (steps.zip docs) fin = .ok doc ∧ FamilyInv S fin := by
+  obtain ⟨hlen, h0, hk⟩ := replay_get S steps doc docs fin hrep
+  have hrc := replayChain_zip S steps docs fin hlen hk
+  have hstart : histNext (steps.zip docs) fin = doc := by
+    have := histNext_zip_drop steps docs fin 0 hlen
+    simp only [List.drop_zero] at this
+    rw [this, h0]
+  obtain ⟨hc, hfin⟩ := chain_of_invariant S (FamilyInv S) (FamilyGuard S) (family_step S htr hts)
+    (steps.zip docs) fin (by rw [hstart]; exact ⟨hd, hn⟩) hrc hg
+  exact ⟨by rw [unwind_of_chain S _ fin hc, hstart], hfin⟩
+
+/-- the same over `history_inv`'s structure: any finite sequence of attempted steps -/
+theorem family_history_undo_run (S : Schema) (htr : compatTransB S = true) (hts : TextLoop S)
+    (doc : Node) (sts : List Step) (hd : S.checkNode doc = true) (hn : fnorm doc.kids = true) :
+    let tr := (Tr.init doc).run S sts
+    HistAll (FamilyGuard S) tr.hist tr.doc → tr.undo S = .ok doc := by
+  intro tr hg
+  obtain ⟨_, _, _, _, hrep⟩ := history_inv S doc sts
+  exact (family_history_undo S htr hts doc tr.steps tr.docs tr.doc hd hn hrep hg).1
+
+/-! Non-vacuity of `family_history_undo`: the one-step history "replace 2 … 3 by `x`" on
+    `doc(p("ab"), p("c"))` (`tiny_fwd`, `tiny_inv` above) meets every hypothesis. -/
+section FamilyExample
+private theorem tinyS_loop : TextLoop tinyS := by
+  intro t q q1 h
+  match t, q with
+  | 0, 0 => simp [Schema.dfa, Schema.nodeType, tinyS, Dfa.matchType, Dfa.edgesOf] at h
+  | 1, 0 =>
+    have : q1 = 0 := by
+      simp [Schema.dfa, Schema.nodeType, tinyS, Dfa.matchType, Dfa.edgesOf] at h; omega
+    subst this; exact h
+  | 2, 0 => simp [Schema.dfa, Schema.nodeType, tinyS, Dfa.matchType, Dfa.edgesOf] at h
+  | 0, q + 1 => simp [Schema.dfa, Schema.nodeType, tinyS, Dfa.matchType, Dfa.edgesOf] at h
+  | 1, q + 1 => simp [Schema.dfa, Schema.nodeType, tinyS, Dfa.matchType, Dfa.edgesOf] at h
+  | 2, q + 1 => simp [Schema.dfa, Schema.nodeType, tinyS, Dfa.matchType, Dfa.edgesOf] at h
+  | t + 3, q =>
+    have : (tinyS.dfa (t + 3)) = #[] := by
+      simp [Schema.dfa, Schema.nodeType, tinyS]
+      rfl
+    rw [this] at h
+    simp [Dfa.matchType, Dfa.edgesOf] at h
+
+example : tinyS.unwind ([Step.replace 2 3 tinySl false].zip [tinyDoc]) tinyDoc' = .ok tinyDoc := by
+  refine (family_history_undo tinyS (by decide) tinyS_loop tinyDoc [.replace 2 3 tinySl false] [tinyDoc] tinyDoc'
+    (by decide) ?_ ?_ ?_).1
+  · simp [tinyDoc, Node.kids, fnorm, fnormKids, Node.norm, chainOk, adjOk]
+  · simp [replay, tiny_fwd]
+  · refine ⟨⟨?_, ?_, ⟨_, tiny_inv⟩, ?_⟩, trivial⟩
+    · simp [tinySl, fnorm, fnormKids, Node.norm, chainOk]
+    · show openValid tinyS tinySl.openStart tinySl.openEnd tinySl.content = true
+      simp [tinySl, openValid, rightOpenValid, Schema.checkKids, Schema.checkNode]
+      decide
+    · simp [Step.undoAligned, histNext, tinyDoc', Node.kids, tinySl, alignedAt, splitOk, isHigh, isLow,
+        Slice.size, fsize, Node.size]
+end FamilyExample
 
 end PM.C04
